@@ -1013,6 +1013,11 @@ fn failure_cases(rng: &mut Rng, tier: &str, out: &mut Out) {
     }
 }
 
+/// The round trips through write callbacks that accept part of each buffer, alone (shared with C13).
+pub fn c20_rt_cases(rng: &mut Rng, tier: &str, out: &mut Out) {
+    roundtrip_cases(rng, tier, out);
+}
+
 pub fn c20_cases(rng: &mut Rng, tier: &str, out: &mut Out) {
     misuse_cases(rng, tier, out);
     roundtrip_cases(rng, tier, out);
